@@ -243,10 +243,28 @@ func (b *bindLeftChangeIncr[A, B]) Stabilize(ctx context.Context) (err error) {
 	// until the swap below completes, which is why two of them alternate.
 	b.bind.nodeSlab, b.bind.nodeSlabSpare = b.bind.nodeSlabSpare, b.bind.nodeSlab
 	b.bind.nodeSlab.reset()
-	b.bind.rhs, err = b.bind.fn(ctx, b.bind, b.bind.lhs.Value())
+	// If the bind function does not produce a right-hand side -- it returns an error or
+	// panics -- the previous generation is still the live one, so the bookkeeping swapped
+	// above is put back exactly as it was. Otherwise the retry would treat the live
+	// generation's node list as already discarded and reissue its slab slots while its
+	// nodes are still linked into the graph.
+	built := false
+	defer func() {
+		if built {
+			return
+		}
+		clear(b.bind.rhsNodes)
+		b.bind.rhsNodesSpare = b.bind.rhsNodes[:0]
+		b.bind.rhsNodes = oldRightNodes
+		b.bind.nodeSlab, b.bind.nodeSlabSpare = b.bind.nodeSlabSpare, b.bind.nodeSlab
+	}()
+	var newRhs Incr[B]
+	newRhs, err = b.bind.fn(ctx, b.bind, b.bind.lhs.Value())
 	if err != nil {
 		return
 	}
+	built = true
+	b.bind.rhs = newRhs
 
 	main := b.bind.main
 	main.parentsArray[0] = b
